@@ -453,9 +453,11 @@ func (ec *evalCtx) urlSinkObligation(call *ast.CallExpr, arg *Term) {
 
 // urlVarGate: the compile-time gate behind "a plain string does not compile". The variable written at a URL sink
 // must receive the template's expression in a way that makes the Go type checker demand a templ.SafeURL:
-//   var v templ.SafeURL = <expr>                     (assignability is the gate), or
-//   v[, err] = f(...)  with f a function of the templ module whose declared (uninstantiated) parameters - errors
-//                      aside - are all templ.SafeURL, or any function outside the templ module that returns a SafeURL
+//
+//	var v templ.SafeURL = <expr>                     (assignability is the gate), or
+//	v[, err] = f(...)  with f a function of the templ module whose declared (uninstantiated) parameters - errors
+//	                   aside - are all templ.SafeURL, or any function outside the templ module that returns a SafeURL
+//
 // Returns "" when every definition of v is of one of these forms.
 func (ec *evalCtx) urlVarGate(x ast.Expr) string {
 	id, ok := ast.Unparen(x).(*ast.Ident)
